@@ -320,4 +320,14 @@ def reversal(repo: Repo) -> RuleRun:
 
 reversal.rule_id = "C07.REVERSAL"
 
-RULES = [kind_registry, dedup, direction, reversal]
+def face_edge_slots(repo: Repo) -> RuleRun:
+    """A curved edge stays on the face side it was given for through invert/shift/reorient: same rule as C10.FACE-PERMUTATIONS."""
+    from ..report import rebrand
+    from . import c10
+
+    return rebrand(c10.face_permutations(repo), PROP, "C07.FACE-EDGE-SLOTS")
+
+
+face_edge_slots.rule_id = "C07.FACE-EDGE-SLOTS"
+
+RULES = [kind_registry, dedup, direction, reversal, face_edge_slots]
